@@ -99,7 +99,7 @@ fn main() {
         "gen" => {
             let prop = arg(&args, "--prop").expect("--prop");
             let seed: u64 = arg(&args, "--seed").expect("--seed").parse().unwrap();
-            println!("{}", generate(prop, seed).encode());
+            println!("{}", generate(arg(&args, "--gen").unwrap_or(prop), seed).encode());
         }
         "run" => {
             let prop = arg(&args, "--prop").expect("--prop");
@@ -123,7 +123,7 @@ fn main() {
                     writeln!(o, "{{\"begin\":{}}}", seed).unwrap();
                     o.flush().unwrap();
                 }
-                let scn = generate(prop, seed);
+                let scn = generate(arg(&args, "--gen").unwrap_or(prop), seed);
                 let (rf, ex) = exec(&scn, None, false);
                 let full = sample_every > 0 && i % sample_every == 0;
                 let (line, bad, keys) = report(prop, seed, &scn, &rf, &ex, full);
